@@ -132,6 +132,10 @@ package dotgit
 // replacing the reference file while it is held lets the next writer lock a
 // different inode, so the compare-and-swap writer never removes or renames the
 // file it has opened (helpers without a contract are inlined: opt inline).
+// Nor is the file emptied before the lock is held (no O_TRUNC, 0x200 on
+// linux, at open): what another writer stores while this one waits for the
+// lock would otherwise keep its tail behind the shorter value written at
+// offset 0. The unconditional update truncates under the lock instead.
 //gvc:func (*DotGit).setRefRwfs
 //gvc:  props C14 C16
 //gvc:  theory int
@@ -139,6 +143,9 @@ package dotgit
 //gvc:  opt frame args
 //gvc:  requires safe: spec_refsafe(strid(fileName))
 //gvc:  sink OpenFile requires safe: spec_refsafe(strid(arg0))
+//gvc:  sink OpenFile requires notrunc: arg1 & 0x200 == 0
+//gvc:  sink Truncate requires locked: ok ==> f.#locked
+//gvc:  sink Write requires emptied: old == nil ==> calls("Truncate") >= 1
 //gvc:  sink Write requires locked: ok ==> f.#locked
 //gvc:  sink Write requires checked: f.#checked
 //gvc:  sink Unlock requires never: false
